@@ -11,7 +11,8 @@ from harness import HARNESSES, SymCtx, ConcCtx
 _G = {}
 
 
-def _init(mir_path, repo_root, src_dir, native_bin, prop_modules):
+def _init(mir_path, repo_root, src_dir, native_bin, prop_modules, known_roles=()):
+    _G['known_roles'] = set(known_roles)
     z3.set_param('parallel.enable', False)
     crate = engine.load_crate(mir_path, repo_root, src_dir)
     _G['crate'] = crate
@@ -52,7 +53,14 @@ def run_path(hname, params, prefix, validate=False):
             except Infeasible:
                 rec['status'] = 'infeasible'
     except Violation as v:
-        rec.update(status='violation', msg=v.msg, role=v.role, values=v.values)
+        rec.update(status='violation', msg=v.msg, role=None, values=v.values)
+        # replay the solver's model against the real (native, dev profile) build right away: this yields the
+        # role of the counterexample (roles are computed on concrete values only) and the native verdict
+        if _G['native'] is not None:
+            st, msg, role = native_replay(hname, params, v.values, _G['native'])
+            rec.update(native=st, native_msg=msg, role=role)
+            if st in ('violation', 'panic') and role in _G.get('known_roles', ()):
+                rec['status'] = 'known'
     except Infeasible:
         rec['status'] = 'infeasible'
     except PathAbort:
@@ -91,6 +99,20 @@ def run_path(hname, params, prefix, validate=False):
     return rec
 
 
+def native_replay(hname, params, values, nat):
+    """re-run a counterexample against the real build; returns ('violation'|'panic'|'pass'|'aborted', msg, role)"""
+    ctx = ConcCtx(values, nat)
+    try:
+        HARNESSES[hname](ctx, params)
+        return 'pass', '', None
+    except Violation as v:
+        return 'violation', v.msg, v.role() if callable(v.role) else v.role
+    except implmod.ImplPanic as e:
+        return 'panic', str(e), None
+    except PathAbort:
+        return 'aborted', '', None
+
+
 def _short(x):
     s = json.dumps(x, sort_keys=True)
     return s if len(s) < 1500 else s[:1500] + '...'
@@ -101,7 +123,7 @@ def explore_task(job_idx, hname, params, prefixes, max_paths, max_s, validate_ev
     I = _G['I']
     sc0, st0 = I.stats['solver_calls'], I.stats['solver_time']
     out = dict(job=job_idx, paths=0, by_status={}, covers=set(), violations=[], panics=[], unencoded={}, samples=[],
-               validated=0, tv_mismatch=[], depth_max=0, nchecks=0, ndischarged=0, steps=0, branches=0)
+               validated=0, tv_mismatch=[], known={}, depth_max=0, nchecks=0, ndischarged=0, steps=0, branches=0)
     stack = list(prefixes)
     rnd = random.Random(seed ^ hash(tuple(prefixes[0])) if prefixes else seed)
     while stack and out['paths'] < max_paths and time.time() - t0 < max_s:
@@ -122,7 +144,13 @@ def explore_task(job_idx, hname, params, prefixes, max_paths, max_s, validate_ev
         out['ndischarged'] += r['ndischarged']
         out['steps'] += r['steps']
         if st == 'violation':
-            out['violations'].append(dict(msg=r['msg'], role=r['role'], values=r['values'], harness=hname, params=params))
+            out['violations'].append(dict(msg=r['msg'], role=r['role'], values=r['values'], harness=hname, params=params,
+                                          native=r.get('native'), native_msg=r.get('native_msg')))
+        elif st == 'known':
+            k = out['known'].setdefault(r['role'], dict(n=0, example=None))
+            k['n'] += 1
+            if k['example'] is None:
+                k['example'] = dict(msg=r['msg'], values=r['values'], harness=hname, params=params, native=r['native'])
         elif st == 'panic':
             if len(out['panics']) < 5:
                 out['panics'].append(dict(msg=r['msg'], values=r.get('values'), harness=hname, params=params))
@@ -159,6 +187,7 @@ class JobState:
         self.samples = []
         self.validated = 0
         self.tv_mismatch = []
+        self.known = {}
         self.nchecks = 0
         self.ndischarged = 0
         self.steps = 0
@@ -238,6 +267,9 @@ def run_jobs(jobs, init_args, nworkers=16, deadline_s=600, validate_every=25, se
                 s.samples.extend(r['samples'][:max(0, 4 - len(s.samples))])
                 s.validated += r['validated']
                 s.tv_mismatch.extend(r['tv_mismatch'])
+                for role, k in r['known'].items():
+                    d = s.known.setdefault(role, dict(n=0, example=k['example']))
+                    d['n'] += k['n']
                 s.nchecks += r['nchecks']
                 s.ndischarged += r['ndischarged']
                 s.steps += r['steps']
